@@ -116,8 +116,13 @@ def run_pipeline(tier, seed, log):
         without = [s for s in scripts if not any(c["c"] == "stop" for c in s)]
         scripts = rng.sample(with_stop, min(len(with_stop), cap * 3 // 4)) + rng.sample(without, min(len(without), cap // 4))
     # orders that are always run (each is also a behaviour of the specification): the stop at every distinguished moment
+    directed = list(DIRECTED)
+    if tier == "thorough":
+        # slow clients: the handshake line arrives 12 s after the connection, a command 12 s after the previous one
+        directed.append([CN(0), {"c": "pause", "secs": 12}, HS(0), Q(0, v=0), {"c": "pause", "secs": 12}, Q(0, v=2), D(0), STOP])
+        directed.append([C(0, True), {"c": "cliwait", "s": 0, "secs": 20}, Q(0, v=0), D(0, "exit"), STOP])
     for tr in ("unix", "tcp"):
-        for d in DIRECTED:
+        for d in directed:
             s = [{"c": "serve", "tr": tr}] + d
             if json.dumps(s) not in {json.dumps(x) for x in scripts}:
                 scripts.append(s)
